@@ -116,6 +116,13 @@ DELEV_MODELS = [
 ]
 
 
+# where fees and emission rewards can go (Payout.tla): vault withdrawals, the fixed fees destination, emission payouts, campaign updates
+PAYOUT_MODELS = [
+    {"name": "payout", "module": "MC_Payout.tla", "cfg": {"quick": "MC_PayoutQuick.cfg", "thorough": "MC_PayoutThorough.cfg"},
+     "setup": "setups/payoutmodel.json", "init_from_setup": True, "timeout": {"quick": 900, "thorough": 10000}},
+]
+
+
 RISKCFG_MODELS = [
     {"name": "riskcfg", "module": "MC_RiskCfg.tla", "cfg": {"quick": "MC_RiskCfgQuick.cfg", "thorough": "MC_RiskCfgThorough.cfg"},
      "setup": "setups/riskcfg.json", "init_from_setup": True, "timeout": {"quick": 900, "thorough": 10000}},
@@ -217,7 +224,7 @@ PROPS = {
     "C12": risk_prop2(["configure_bank", "configure_interest", "configure_limits", "configure_emode", "clone_emode", "setup_emissions", "update_emissions",
                        "tokenless_complete", "write_metadata", "configure_oracle", "set_fixed_price", "tx"], ADMIN_DRIVERS, models=ADMIN_MODELS + WIND_MODELS + DELEV_MODELS, minnt=200),
     "C19": risk_prop2(["collect_fees", "withdraw_fees", "withdraw_fees_perm", "withdraw_insurance", "settle_emissions", "withdraw_emissions",
-                       "withdraw_emissions_perm", "deposit", "withdraw"], ADMIN_DRIVERS + LEDGER_DRIVERS, models=LEDGER_MODELS, minnt=200),
+                       "withdraw_emissions_perm", "deposit", "withdraw"], ADMIN_DRIVERS + LEDGER_DRIVERS, models=LEDGER_MODELS + PAYOUT_MODELS, minnt=200),
     "C08": {
         "models": AUTH_MODELS + PDA_MODELS + [txm("Recv2", "setups/tx.json"), txm("RecvP", "setups/tx.json")],
         "drivers": STAKED_DRIVERS + RISK_DRIVERS + LIQ_DRIVERS + KAMINO_DRIVERS + RECV_DRIVERS + ADMIN_DRIVERS,
